@@ -19,6 +19,10 @@ Spec: `View = ι → Option μ`, `apply`, `fold`, `WFHist` (`ScVerif/C09/Change.
 Quantifiers: every theorem holds for all input streams (well-formed where stated) and all patterns
 `ms : List Move` of "offer one input" / "take one output" — i.e. every producer/consumer interleaving.
 
+Part 2 (`PropsSubs.lean`): subscribers on top of the pipeline — Collection.Pull's seed loop, PullID as a
+fourth stage, several subscribers on one bus, Value.Pull's forwarder as coded with its response filter,
+a backpressured subscriber, and the "eventually" theorems.
+
 Only property theorems and their non-vacuity examples live in this file.
 -/
 namespace ScVerif.C09
